@@ -33,7 +33,10 @@ Blocks1(z) ==
     \cup { NBody("macro", b) : b \in Body1 \ {<<>>, <<CMT>>} }
     \cup { NBody("ct", b) : b \in Body1 \ {<<>>, <<CMT>>} }
     \cup { NMacroP(7, vs) : vs \in {<<VD(5)>>, <<VD(5), VX(<<1, 2>>)>>, <<VX(<<1>>), VX(<<2>>), VX(<<3>>)>>, <<VD(5), VD(5)>>} }
-    \cup { NBody("ctx", <<P5>>), NBody("ctx", <<P5, P5, NB1(14, 2, "d")>>), NBody("ctx", <<CMT>>) }
+    \cup { NBody("ctx", <<P5>>), NBody("ctx", <<P5, P5, NB1(14, 2, "d")>>), NBody("ctx", <<CMT>>),
+           \* executed comptime blocks that leave several items: the TOP item is the value
+           NBody("ctx", <<P5, NPush(VD(6))>>), NBody("ctx", <<NPush(VX(<<10>>)), NPush(VX(<<11>>)), NPush(VX(<<12, 13>>))>>),
+           NBody("ctx", <<P5, DUPOP, NPush(VD(1)), NB1(14, 2, "d")>>) }
     \cup { NVset(<<107>>, 2), NVvals(<<107, 50>>, <<VD(5), VX(<<1, 2>>)>>), NVar("vload", <<107>>),
            NVar("vsize", <<107>>) }
 \* depth 2: a block whose body contains a depth-1 block
